@@ -887,3 +887,88 @@ Proof. intros a b _ _. reflexivity. Qed.
 Lemma name_unique_failures :
   map fst (filter (fun kn => negb (name_unique (fst kn))) keyNames) = [KeyPrintScreen].
 Proof. vm_compute. reflexivity. Qed.
+
+(* ---------- the description (String()) of a chord under every encoding ---------- *)
+(* String() does not distinguish key events that are the same key (BS = DEL = Backspace) with the same
+   Shift/Alt/Ctrl/Super/Hyper/Meta prefix and, where it matters, the same Caps Lock state: for ALL keys *)
+Lemma kdesc_equiv_sound a b : kdesc_equivb a b = true -> forall u, key_string u a = key_string u b.
+Proof.
+  unfold kdesc_equivb. intros H u.
+  apply andb_true_iff in H as [H Hcaps]. apply andb_true_iff in H as [Hc Hp].
+  apply Z.eqb_eq in Hc. apply zlist_eqb_eq in Hp.
+  unfold key_string. cbv zeta. rewrite <- Hp.
+  unfold desc_code in Hc. unfold caps_blind in Hcaps.
+  change KeyTab with 9 in *. change KeySpace with 32 in *. change KeyEsc with 27 in *.
+  change KeyBackspace with 127 in *. change KeyEnter with 13 in *. unfold MaxRune in *.
+  destruct (k_code a =? 8) eqn:Ea8; destruct (k_code b =? 8) eqn:Eb8.
+  - apply Z.eqb_eq in Ea8, Eb8. rewrite Ea8, Eb8. reflexivity.
+  - apply Z.eqb_eq in Ea8. rewrite Ea8, <- Hc. reflexivity.
+  - apply Z.eqb_eq in Eb8. rewrite Eb8, Hc. reflexivity.
+  - rewrite <- Hc.
+    destruct ((k_code a =? 9) || (k_code a =? 32) || (k_code a =? 27) || (k_code a =? 127) || (k_code a =? 13)) eqn:E5; [reflexivity|].
+    destruct (k_code a <? 0); [reflexivity|].
+    destruct (k_code a <? 32) eqn:E32; [reflexivity|].
+    destruct (k_code a <=? 1114111) eqn:Emax; [|reflexivity].
+    apply orb_true_iff in Hcaps as [Hcaps|Hcaps].
+    + apply eqb_prop in Hcaps. now rewrite Hcaps.
+    + apply andb_true_iff in Hcaps as [Hcaps _].
+      repeat (apply orb_false_iff in E5; destruct E5 as [E5 ?E]).
+      lia.
+Qed.
+
+Lemma desc_all_ok_true : forallb desc_chord_ok desc_chords = true.
+Proof. vm_compute. reflexivity. Qed.
+
+Lemma desc_chord_in c : desc_chord c = true -> In c desc_chords.
+Proof.
+  destruct c as [k m]. unfold desc_chord, desc_chords. cbn [ch_code ch_mods]. intros H.
+  apply andb_true_iff in H as [Hk Hm].
+  apply in_flat_map. exists k. split.
+  - unfold desc_keys. apply in_or_app. apply orb_true_iff in Hk as [Hk|Hk].
+    + left. apply filter_In. split; [|exact Hk].
+      apply zrange_In. unfold printable_nonupper, in_range in Hk. lia.
+    + right. unfold special4 in Hk. cbn [In].
+      repeat (apply orb_true_iff in Hk; destruct Hk as [Hk|Hk]); apply Z.eqb_eq in Hk; subst; tauto.
+  - apply in_map. apply zrange_In. unfold in_range in Hm. lia.
+Qed.
+
+Local Opaque desc_chords.
+
+Section Desc.
+Variable u : uni.
+Hypothesis Hascii : ascii_like u.
+
+Lemma description_of_encoding c s :
+  desc_chord c = true -> In s (all_encs c) -> guard_esc_upper_seq c s = false ->
+  key_string u (decode_key u s) = key_string u (chord_key c).
+Proof.
+  intros Hc Hs Hg. apply desc_chord_in in Hc.
+  pose proof (proj1 (forallb_forall desc_chord_ok desc_chords) desc_all_ok_true c Hc) as H1.
+  unfold desc_chord_ok in H1.
+  pose proof (proj1 (forallb_forall _ _) H1 s Hs) as H2.
+  unfold desc_enc_ok in H2. rewrite Hg in H2. cbn [orb] in H2.
+  apply andb_true_iff in H2 as [Hd He].
+  rewrite (decode_ext u Hascii s Hd). now apply kdesc_equiv_sound.
+Qed.
+
+Lemma description_encoding_independent c s1 s2 :
+  desc_chord c = true -> In s1 (all_encs c) -> In s2 (all_encs c) ->
+  guard_esc_upper_seq c s1 = false -> guard_esc_upper_seq c s2 = false ->
+  key_string u (decode_key u s1) = key_string u (decode_key u s2).
+Proof.
+  intros Hc H1 H2 G1 G2.
+  rewrite (description_of_encoding c s1 Hc H1 G1), (description_of_encoding c s2 Hc H2 G2). reflexivity.
+Qed.
+
+Lemma desc_obs_ok_model c s1 s2 :
+  desc_chord c = true -> In s1 (all_encs c) -> In s2 (all_encs c) ->
+  desc_obs_ok c s1 s2 (key_string u (chord_key c)) (key_string u (decode_key u s1)) (key_string u (decode_key u s2)) = true.
+Proof.
+  intros Hc H1 H2. unfold desc_obs_ok.
+  destruct (guard_esc_upper_seq c s1) eqn:G1; destruct (guard_esc_upper_seq c s2) eqn:G2; cbn [orb andb];
+    repeat rewrite (description_of_encoding c s1 Hc H1 G1);
+    repeat rewrite (description_of_encoding c s2 Hc H2 G2);
+    rewrite ?zlist_eqb_refl; reflexivity.
+Qed.
+End Desc.
+
